@@ -122,6 +122,9 @@ structure FileInput where
   main : List RawTok
   /-- `mFileCache` in iteration order -/
   headers : List Header
+  /-- the values of the analysis options of the run (whatever the analysis reads from `Settings`, `file.lang()`, the
+      loaded libraries and platform besides the tokens); constant along a C18 history, edited along a C19 history -/
+  opts : Str := []
   deriving DecidableEq, Repr, Inhabited
 
 /-- Preprocessor::calculateHash: the argument of `std::hash<std::string>` -/
@@ -152,6 +155,12 @@ inductive ToolItem where
   | filePath
   /-- `filePath.size()` -/
   | filePathLen
+  /-- `mSettings.g.isEnabled(E::m) ? c : ' '` for the groups `certainty` and `checks` -/
+  | groupFlag (group member : String) (c : Char)
+  /-- `for (const std::string &x : mSettings.f) toolinfo << x << sep` -/
+  | strSetField (field : String) (sep : Char)
+  /-- `mSettings.f.call()` returning a string (`standards.getC()`, `standards.getCPP()`, `platform.toString()`) -/
+  | callField (field call : String)
   | lit (c : Char)
   deriving DecidableEq, Repr
 
@@ -167,6 +176,7 @@ structure SettingsView where
   addons : List (List (String × Str))
   dump : Str
   filePath : Str
+  lists : List (String × List Str) := []
   deriving DecidableEq, Repr, Inhabited
 
 def assoc? {β} (k : String) : List (String × β) → Option β
@@ -192,6 +202,9 @@ def renderItem (s : SettingsView) : ToolItem → Option Str
   | .supprDump => some s.dump
   | .filePath => some s.filePath
   | .filePathLen => some (dec s.filePath.length)
+  | .groupFlag g m c => (assoc? (g ++ ":" ++ m) s.bools).map fun b => [if b then c else ' ']
+  | .strSetField n sep => (assoc? n s.lists).map fun l => l.flatMap fun v => v ++ [sep]
+  | .callField f c => assoc? (f ++ "." ++ c) s.strs
   | .lit c => some [c]
 
 def renderToolinfo (items : List ToolItem) (s : SettingsView) : Option Str :=
@@ -209,7 +222,56 @@ def ToolItem.fields : ToolItem → List String
   | .enumField n => [n]
   | .addonInfos _ => ["addonInfos"]
   | .supprDump => ["suppressions"]
+  | .groupFlag g m _ => [g ++ ":" ++ m]
+  | .strSetField n _ => [n]
+  | .callField f _ => [f]
   | _ => []
+
+/-! ## 2b. which option reaches the key (C19) -/
+
+/-- an analysis option and the `Settings` fields (or command line parser targets) its handler writes -/
+structure OptionUse where
+  name : String
+  fields : List String
+  deriving DecidableEq, Repr
+
+/-- why a field that is not hashed itself cannot make a cached result stale (each case read off the code) -/
+inductive FieldRole where
+  /-- re-applied when cached findings are replayed: the suppression lists (CppCheckLogger::reportErr runs for cached findings too) -/
+  | afterCache
+  /-- visible in the hashed token stream: the include paths decide which header files are loaded into `mFileCache` -/
+  | throughTokens
+  /-- acts only through / is a function of the named hashed field:
+      `inlineSuppressions` – inline suppressions enter `nomsg` only when the flag is set (Preprocessor::inlineSuppressions) and
+      `nomsg` is dumped into toolinfo; `vfOptions` – Settings::setCheckLevel assigns constants per `checkLevel` -/
+  | via (hashed : String)
+  deriving DecidableEq, Repr
+
+def fieldRole : String → Option FieldRole
+  | "suppressions" => some .afterCache
+  | "includePaths" => some .throughTokens
+  | "inlineSuppressions" => some (.via "suppressions")
+  | "vfOptions" => some (.via "checkLevel")
+  | _ => none
+
+/-- `f` cannot make a cached result stale, given the hashed fields and the severities any code asks about -/
+def fieldCovered (hashFields readSev : List String) (f : String) : Bool :=
+  hashFields.contains f
+  || (match fieldRole f with
+      | some (.via g) => hashFields.contains g
+      | some _ => true
+      | none => false)
+  || ("severity:".toList.isPrefixOf f.toList && !readSev.contains f)
+
+def optionCovered (hashFields readSev : List String) (o : OptionUse) : Bool := o.fields.all (fieldCovered hashFields readSev)
+
+def hashFieldsOf (items : List ToolItem) : List String := items.flatMap ToolItem.fields
+
+/-- the fields hashed at the pinned commit (the toolinfo chain of CppCheck::calculateHash before any repair) -/
+def legacyHashFields : List String :=
+  ["cppcheckCfgProductName", "severity:warning", "severity:style", "severity:performance", "severity:portability",
+   "severity:information", "userDefines", "checkConfiguration", "force", "maxConfigsOption", "checkLevel", "addonInfos",
+   "premiumArgs", "suppressions"]
 
 /-! ## 3. files.txt -/
 
@@ -301,15 +363,16 @@ def retryIds : List Str := ["premium-invalidLicense".toList, "premium-internalEr
 def hasInternal (fs : List Finding) : Bool := fs.any fun f => retryIds.contains f.id
 
 /-- the declared input of the per-file analysis: path, non-comment tokens with their full locations, header names and
-    their non-comment tokens (the analysis options are fixed along a C18 history) -/
+    their non-comment tokens, and the analysis options -/
 structure View where
   path : Str
   main : List RawTok
   headers : List (Str × List RawTok)
+  opts : Str
   deriving DecidableEq, Repr, Inhabited
 
 def FileInput.view (i : FileInput) : View :=
-  { path := i.path, main := codeToks i.main, headers := i.headers.map fun h => (h.name, codeToks h.toks) }
+  { path := i.path, main := codeToks i.main, headers := i.headers.map fun h => (h.name, codeToks h.toks), opts := i.opts }
 
 /-- names of functions `Summaries::loadReturn` puts into `Settings::summaryReturn` at the start of a run -/
 abbrev SummRet := List Str
@@ -466,6 +529,9 @@ def shiftCols (p : Str) (dc : Nat) (t : Tree) : Tree :=
 
 def removeFile (p : Str) (t : Tree) : Tree := t.filter fun i => i.path ≠ p
 
+/-- change the options of the next runs: every file gets the option values `opts` and the toolinfo string `ti` -/
+def setOptions (opts ti : Str) (t : Tree) : Tree := t.map fun i => { i with opts := opts, toolinfo := ti }
+
 /-! ## 7. a small concrete world for witnesses (identity hash; a finding per `!` token; summaries = `?` tokens) -/
 
 def bugsOf (file : Str) (ts : List RawTok) : List Finding :=
@@ -473,11 +539,14 @@ def bugsOf (file : Str) (ts : List RawTok) : List Finding :=
     { id := "bug".toList, file := file, line := t.line, col := t.col, msg := [], macros := if t.col == 7 then ["M".toList] else [] }
 
 /-- per-file findings: one per `!` token, located where the token is (a `!` in column 7 counts as coming from macro `M`),
+    one per `%` token when the options contain `i`,
     and one per `~` token when the return summaries name `f`; summary: the `?` tokens; function summary: whether the file
     has a token `f`; whole-program finding: one per file that has a `?` while another listed file has one too -/
 def toyWorld (enc : Encoding) (lk : LookupKind) : World Str (List RawTok) Bool :=
   { hash := id
     analyze := fun sr v => bugsOf v.path v.main ++ (v.headers.flatMap fun h => bugsOf h.1 h.2)
+      ++ (if v.opts.contains 'i' then (v.main.filter fun t => t.str == ['%']).map fun t =>
+            { id := "inconclusive".toList, file := v.path, line := t.line, col := t.col, msg := [] } else [])
       ++ (if sr.contains ['f'] then (v.main.filter fun t => t.str == ['~']).map fun t =>
             { id := "leak".toList, file := v.path, line := t.line, col := t.col, msg := [] } else [])
     summary := fun _ v => v.main.filter fun t => t.str == ['?']
@@ -489,8 +558,9 @@ def toyWorld (enc : Encoding) (lk : LookupKind) : World Str (List RawTok) Bool :
     enc := enc
     lk := lk }
 
-def mkInput (path : String) (toks : List (String × Nat × Nat)) (headers : List (String × List (String × Nat × Nat)) := []) : FileInput :=
-  { path := path.toList, toolinfo := "v".toList,
+def mkInput (path : String) (toks : List (String × Nat × Nat)) (headers : List (String × List (String × Nat × Nat)) := [])
+    (toolinfo : String := "v") (opts : String := "") : FileInput :=
+  { path := path.toList, toolinfo := toolinfo.toList, opts := opts.toList,
     main := toks.map fun t => { str := t.1.toList, line := t.2.1, col := t.2.2 },
     headers := headers.map fun h => { name := h.1.toList, toks := h.2.map fun t => { str := t.1.toList, line := t.2.1, col := t.2.2 } } }
 
